@@ -71,7 +71,7 @@ ClauseCalls(f) ==
                                          [m |-> "do_update", col |-> "b", val |-> f]} ELSE {})
 Outside == {"T5", "Q6", "C7"}
 NameCalls == IF kind = "insertvalues" THEN {[m |-> "columns", names |-> <<"a", "b">>], [m |-> "on_conflict", names |-> <<"a">>], [m |-> "do_nothing"]}
-             ELSE IF kind = "insertselect" THEN {[m |-> "columns", names |-> <<"a">>]} ELSE {}
+             ELSE IF kind = "insertselect" THEN {[m |-> "columns", names |-> <<"a">>], [m |-> "on_conflict", names |-> <<"a">>], [m |-> "do_nothing"]} ELSE {}
 Clause == /\ stage >= 3 /\ stage < 3 + MaxClauses
           /\ \/ \E s \in scope \cup Outside, col \in {"a", "b"} : \E c \in ClauseCalls(Fld(s, col)) :
                     /\ (s \in Outside /\ s \notin scope => c.m = "where")       \* an outside source (table, aliased subquery, CTE reference) only in WHERE
